@@ -1,21 +1,23 @@
 #!/bin/sh
 # usage: confirm_seeded.sh <worktree> <k> <ID>
 # Confirms in the scratch worktree: demo passes on clean tree, fails with patch k, pinned suite (unit + integration) passes with patch k.
-WT=$1; K=$2; ID=$3
+WT=$1; K=$2; ID=$3; FEAT=${4:-}
+[ -n "$FEAT" ] && FEAT="--features $FEAT"
 cd $WT || exit 2
 git checkout -q -- src 2>/dev/null
 rm -f tests/demo_*.rs
 cp OUT/demo$K.rs tests/demo_seed.rs
 echo "--- demo on clean tree (must pass)"
-cargo test --offline --test demo_seed >/tmp/confirm.$$.log 2>&1; A=$?
+cargo test --offline $FEAT --test demo_seed >/tmp/confirm.$$.log 2>&1; A=$?
 tail -3 /tmp/confirm.$$.log
 git apply OUT/patch$K.diff || { echo "PATCH DOES NOT APPLY"; exit 2; }
 echo "--- demo with patch (must fail)"
-cargo test --offline --test demo_seed >/tmp/confirm.$$.log 2>&1; B=$?
+cargo test --offline $FEAT --test demo_seed >/tmp/confirm.$$.log 2>&1; B=$?
 grep -E "test result|panicked" /tmp/confirm.$$.log | head -5
 rm -f tests/demo_seed.rs
 echo "--- pinned suite with patch (must pass)"
 cargo test --offline --lib --tests >/tmp/confirm.$$.log 2>&1; C=$?
+if [ -n "$FEAT" ]; then cargo test --offline $FEAT --lib --tests >>/tmp/confirm.$$.log 2>&1; C2=$?; [ $C2 -ne 0 ] && C=$C2; fi
 grep -E "test result" /tmp/confirm.$$.log
 echo "--- feature build with patch"
 cargo build --offline --features verif,csv,arrow,parquet >/tmp/confirm.$$.log 2>&1; D=$?
